@@ -501,7 +501,8 @@ VERIF_SUB_W(diff_order, 0.02) {
     c.close(ev.getValue(), d.ref.v, 4096 * d.ref.e + TINY, "C13.diff.variable_order",
             "'" + text + "' at x=" + dbl(d.x[0]) + " y=" + dbl(d.x[1]));
   } catch (const std::exception& e) {
-    c.check(false, "C13.diff.exception", "'" + text + "': " + e.what());
+    // the swapped variables may also leave the domain of f: same defect
+    c.check(false, "C13.diff.variable_order", "'" + text + "' at x=" + dbl(d.x[0]) + " y=" + dbl(d.x[1]) + ": " + e.what());
   }
 }
 
